@@ -14,8 +14,15 @@
     in `clearOldLog`, and the install-before-close order in `process`.
   They break whenever the source changes one of these expressions; renaming locals or
   reordering independent statements does not change the normal form.
+  * interpreted obligations (last section): the regenerated expressions of `checkOk`, of the
+    `Read` window (`file == "" || length <= 0`, `size < endpos`, `if endpos < 0 { endpos = size }`,
+    the `ReadAt` offset and buffer length through float64/math.Max/math.Min) and of the whole
+    per-entry decision of `clearOldLog` (switch-off guards, the five skip guards with `LastIndex`,
+    slice, `len != 8`, digit test, and the removal condition) are given the semantics of
+    `Logger.IR.eval` and proved equal to the model (`checkOk`, `readWindow`, `candidate`, `deleted`)
+    for all inputs.
 -/
-import Golib.Logger.Model
+import Golib.Logger.RateLemmas
 import Golib.Gen.C17
 
 namespace C17Gen
@@ -160,5 +167,226 @@ theorem gen_read_contained :
     ("Read", "return", "$1 == \"\" || $2 <= 0") ∈ Gen.C17.guards ∧
     ("Read", "filepath.Rel(filepath.Join(this.conf.homePath, \"logs\"), filepath.Join(filepath.Join(this.conf.homePath, \"logs\"), $1))") ∈ Gen.C17.calls ∧
     ("Read", "os.Open(filepath.Join(filepath.Join(this.conf.homePath, \"logs\"), $1))") ∈ Gen.C17.calls := by decide +kernel
+
+open Logger.IR
+
+/-! ## interpreted obligations -/
+
+theorem strBytes_dot : strBytes "." = [cDot] := by decide
+theorem strBytes_dash : strBytes "-" = [cDash] := by decide
+theorem strBytes_empty : strBytes "" = [] := by decide
+
+@[simp] theorem vb_beq_true (x : Bool) : (V.b x == V.b true) = x := by cases x <;> rfl
+@[simp] theorem vbad_beq_true : (V.bad == V.b true) = false := rfl
+@[simp] theorem vi_beq_true (n : Int) : (V.i n == V.b true) = false := rfl
+@[simp] theorem vs_beq_true (n : Bytes) : (V.s n == V.b true) = false := rfl
+
+/-! ### checkOk -/
+
+def envCheck (c : Cache) (id : Bytes) (sec now : Int) : Env := fun n args =>
+  match n, args with
+  | "#p0", [] => .s id
+  | "#p1", [] => .i sec
+  | "dateutil.Now", [] => .i now
+  | "this.lastLog.Get", [.s k] => .i (cacheGet c k)
+  | _, _ => .bad
+
+/-- the two conditions and the `Put` of `checkOk`, read with the semantics of `IR.eval`, are the
+    model's `checkOk` for every cache, id, interval and time -/
+theorem gen_checkOk_interp (c : Cache) (id : Bytes) (sec now : Int) :
+    ∃ g s, Gen.C17.checkOkConds = [g, s] ∧
+      Gen.C17.checkOkPut.map (eval (envCheck c id sec now) 0) = [.s id, .i now] ∧
+      evalB (envCheck c id sec now) g = decide (sec > 0) ∧
+      evalB (envCheck c id sec now) s = decide (now < cacheGet c id + sec * 1000) ∧
+      checkOk c id sec now =
+        if evalB (envCheck c id sec now) g then
+          (if evalB (envCheck c id sec now) s then (false, c) else (true, cachePut c id now))
+        else (true, c) := by
+  refine ⟨_, _, rfl, ?_, ?_, ?_, ?_⟩
+  · simp [Gen.C17.checkOkPut, eval, envCheck]
+  · simp [evalB, eval, binop, envCheck]
+  · simp [evalB, eval, binop, envCheck]
+  · by_cases h1 : sec > 0 <;> by_cases h2 : now < cacheGet c id + sec * 1000 <;>
+      simp [evalB, eval, binop, envCheck, checkOk, h1, h2]
+
+/-! ### Read: guards and window arithmetic -/
+
+def envRead (file : Bytes) (endpos length size : Int) : Env := fun n args =>
+  match n, args with
+  | "#p0", [] => .s file
+  | "#p1", [] => .i endpos
+  | "#p2", [] => .i length
+  | ".Size", [_] => .i size
+  | _, _ => .bad
+
+/-- the guards `file == "" || length <= 0` and `size < endpos`, the assignment
+    `if endpos < 0 { endpos = size }`, the offset and the buffer length handed to `ReadAt`
+    (through `float64`, `math.Max`, `math.Min`), read with `IR.eval`, are `readWindow` for every
+    size, end position and length -/
+theorem gen_read_window_interp (file : Bytes) (size endpos length : Int) :
+    ∃ g0 g1 g2 c rhs ty n off a1 a2,
+      Gen.C17.readGuards = [g0, g1, g2] ∧ Gen.C17.readSets = [(c, .var "#p1", rhs)] ∧
+      Gen.C17.readAtArgs = [.call2 "make" ty n, off] ∧ Gen.C17.readNewLogData = [off, a1, a2] ∧
+      evalB (envRead file endpos length size) g0 = decide (file = [] ∨ length ≤ 0) ∧
+      evalB (envRead file endpos length size) g2 = decide (size < endpos) ∧
+      (let e := if evalB (envRead file endpos length size) c then
+                  (match eval (envRead file endpos length size) 0 rhs with | .i v => v | _ => 0) else endpos
+       ¬ size < endpos →
+        ∃ st rd, eval (envRead file e length size) 0 off = .i st ∧ eval (envRead file e length size) 0 n = .i rd ∧
+          readWindow size endpos length = some (st, rd)) := by
+  refine ⟨_, _, _, _, _, _, _, _, _, _, rfl, rfl, rfl, rfl, ?_, ?_, ?_⟩
+  · by_cases h1 : file = [] <;> by_cases h2 : length ≤ 0 <;>
+      simp [evalB, eval, binop, envRead, strBytes_empty, h1, h2]
+  · simp [evalB, eval, binop, envRead]
+  · intro e hbe
+    refine ⟨_, _, rfl, rfl, ?_⟩
+    simp only [readWindow, hbe, if_false]
+    by_cases hneg : endpos < 0 <;> simp [e, evalB, eval, binop, envRead, hneg]
+
+/-! ### clearOldLog: the parse of a file name and the removal condition -/
+
+def envRet (cal : Cal) (rot : Bool) (logID name : Bytes) (keep nowUnit : Int) : Env := fun n args =>
+  match n, args with
+  | ".Name", [_] => .s name
+  | ".IsDir", [_] => .b false
+  | "this.conf.logID", [] => .s logID
+  | "this.conf.rotationEnabled", [] => .b rot
+  | "false", [] => .b false
+  | "this.conf.keepDays", [] => .i keep
+  | "dateutil.GetDateUnitNow", [] => .i nowUnit
+  | "dateutil.GetYmdTime", [.s d] => .s d
+  | "dateutil.GetDateUnit", [.s d] => (match cal.unitOf d with | some u => .i u | none => .bad)
+  | _, _ => .bad
+
+theorem indexFunc_nonneg (p : Nat → Bool) (bs : Bytes) (i : Nat) :
+    decide (indexFunc p bs i ≥ 0) = bs.any p := by
+  induction bs generalizing i with
+  | nil => simp [indexFunc]
+  | cons b r ih =>
+    simp only [indexFunc, List.any_cons]
+    by_cases hp : p b = true
+    · simp [hp]
+    · have hf : p b = false := by simpa using hp
+      simp only [hf, Bool.false_eq_true, if_false, Bool.false_or]
+      exact ih (i + 1)
+
+theorem any_not_digit (d : Bytes) : d.any (fun c => decide ((c : Int) < 48) || decide ((c : Int) > 57)) = !d.all isDigit := by
+  induction d with
+  | nil => rfl
+  | cons b r ih =>
+    simp only [List.any_cons, List.all_cons, ih, Bool.not_and]
+    congr 1
+    unfold isDigit
+    by_cases h1 : (b : Int) < 48 <;> by_cases h2 : (b : Int) > 57 <;> simp [h1, h2] <;> omega
+
+/-- every test `clearOldLog` applies to a directory entry before it looks at the date
+    (`IsDir`, `HasPrefix(name, logID+"-")`, the two `LastIndex` tests, the slice, `len(date) != 8`,
+    the digit test), read with `IR.eval`, skips exactly the names for which the model's
+    `candidate` is `none` — for every name and log id -/
+theorem gen_retention_parse_interp (cal : Cal) (rot : Bool) (logID name : Bytes) (keep nowUnit : Int) :
+    Gen.C17.retentionGuards.any (evalB (envRet cal rot logID name keep nowUnit)) = (candidate logID name).isNone := by
+  have hN : ∀ l, eval (envRet cal rot logID name keep nowUnit) l (E.call1 ".Name" (E.var "#rv")) = .s name := by
+    intro l; simp [eval, envRet]
+  have hD : eval (envRet cal rot logID name keep nowUnit) 0 (E.call1 ".IsDir" (E.var "#rv")) = .b false := by
+    simp [eval, envRet]
+  have hL : eval (envRet cal rot logID name keep nowUnit) 0 (E.var "this.conf.logID") = .s logID := by
+    simp [eval, envRet]
+  have hpred : ∀ c : Nat, (eval (envRet cal rot logID name keep nowUnit) c
+      (E.bin "||" (E.bin "<" (E.var "#l0") (E.int 48)) (E.bin ">" (E.var "#l0") (E.int 57))) == V.b true)
+      = (decide ((c : Int) < 48) || decide ((c : Int) > 57)) := by
+    intro c; simp [eval, binop]
+  unfold candidate datePart
+  simp only [Gen.C17.retentionGuards, List.any_cons, List.any_nil, Bool.or_false, evalB]
+  cases hx : lastIndexOf cDot name with
+  | none =>
+    have : lastIndexOf 46 name = none := hx
+    simp [eval, binop, hN, hD, hL, strBytes_dot, strBytes_dash, lastIndexV, cDot, this]
+  | some x =>
+    have hx' : lastIndexOf 46 name = some x := hx
+    cases hs : lastIndexOf cDash name with
+    | none =>
+      have : lastIndexOf 45 name = none := hs
+      simp [eval, binop, hN, hD, hL, strBytes_dot, strBytes_dash, lastIndexV, cDot, cDash, hx', this]
+    | some s =>
+      have hs' : lastIndexOf 45 name = some s := hs
+      by_cases hp : (logID ++ [cDash]).isPrefixOf name = true
+      · have hp' : (logID ++ [45]).isPrefixOf name = true := hp
+        by_cases hlt : s + 1 ≥ x
+        · have h1 : ((x : Int) - 1 ≤ (s : Int)) := by omega
+          simp [eval, binop, hN, hD, hL, strBytes_dot, strBytes_dash, lastIndexV, cDot, cDash, hx', hs', hp', hlt, h1]
+        · have h1 : ¬ ((x : Int) - 1 ≤ (s : Int)) := by omega
+          have h2 : ¬ ((s : Int) < 0) := by omega
+          have e1 : ((s : Int) + 1).toNat = s + 1 := by omega
+          have e2 : (x : Int).toNat - ((s : Int) + 1).toNat = x - (s + 1) := by omega
+          simp only [eval, binop, hN, hD, hL, strBytes_dot, strBytes_dash, lastIndexV, cDot, cDash, hx', hs', hp', hp, hlt, h1, h2,
+            e1, e2, hpred, indexFunc_nonneg, any_not_digit]
+          have e3 : ((x : Int)).toNat = x := by omega
+          simp only [e3, vb_beq_true, any_not_digit]
+          generalize List.take (x - (s + 1)) (List.drop (s + 1) name) = d
+          by_cases hl : d.length = 8 <;> cases hd : d.all isDigit <;> simp [hl, hd] <;>
+            first | omega | (right; omega) | (intro _ ; omega) | skip
+      · have hp' : ¬ (logID ++ [45]).isPrefixOf name = true := hp
+        simp [eval, binop, hN, hD, hL, strBytes_dot, strBytes_dash, lastIndexV, cDot, cDash, hx', hs', hp', hp]
+
+/-- the guards that switch retention off (`rotationEnabled == false`, `keepDays <= 0`) -/
+theorem gen_retention_returns_interp (cal : Cal) (rot : Bool) (logID name : Bytes) (keep nowUnit : Int) :
+    Gen.C17.retentionReturns.any (evalB (envRet cal rot logID name keep nowUnit)) = !retentionOn rot keep := by
+  cases rot <;> by_cases hk : keep ≤ 0 <;>
+    simp [Gen.C17.retentionReturns, evalB, eval, binop, envRet, retentionOn, hk] <;> omega
+
+/-- the condition under which `os.Remove` is reached: its date argument is the model's date
+    part, and with the calendar answering for `GetDateUnit(GetYmdTime(date))` the comparison is
+    `nowUnit - unit > keepDays` (a calendar panic, recovered in the code, removes nothing) -/
+theorem gen_retention_remove_interp (cal : Cal) (rot : Bool) (logID name d : Bytes) (keep nowUnit : Int)
+    (hc : candidate logID name = some d) :
+    ∃ r, Gen.C17.removeCond = [r] ∧
+      evalB (envRet cal rot logID name keep nowUnit) r =
+        (match cal.unitOf d with | some u => decide (nowUnit - u > keep) | none => false) := by
+  refine ⟨_, rfl, ?_⟩
+  obtain ⟨_, hd, _, _⟩ := candidate_some hc
+  have hN : ∀ l, eval (envRet cal rot logID name keep nowUnit) l (E.call1 ".Name" (E.var "#rv")) = .s name := by
+    intro l; simp [eval, envRet]
+  unfold datePart at hd
+  cases hx : lastIndexOf cDot name with
+  | none => rw [hx] at hd; cases hd
+  | some x =>
+    rw [hx] at hd
+    cases hs : lastIndexOf cDash name with
+    | none => rw [hs] at hd; cases hd
+    | some s =>
+      rw [hs] at hd
+      simp only [] at hd
+      split at hd
+      · cases hd
+      · rename_i hlt
+        injection hd with hd
+        have hx' : lastIndexOf 46 name = some x := hx
+        have hs' : lastIndexOf 45 name = some s := hs
+        have e1 : ((s : Int) + 1).toNat = s + 1 := by omega
+        have e3 : ((x : Int)).toNat = x := by omega
+        have e4 : x - (s + 1) = x - (s + 1) := rfl
+        cases hu : cal.unitOf d with
+        | none => simp [evalB, eval, binop, strBytes_dot, strBytes_dash, lastIndexV, cDot, cDash, hx', hs', e1, e3, hd, envRet, hu]
+        | some u => simp [evalB, eval, binop, strBytes_dot, strBytes_dash, lastIndexV, cDot, cDash, hx', hs', e1, e3, hd, envRet, hu]
+
+/-- all of `clearOldLog`'s decision for one directory entry, interpreted: the entry is removed
+    iff no switch-off guard fires, no skip guard fires and the removal condition holds — and that
+    is the model's `deleted`, for every calendar, setting, time and name -/
+theorem gen_retention_interp (cal : Cal) (rot : Bool) (logID name : Bytes) (keep nowUnit : Int) :
+    (!(Gen.C17.retentionReturns.any (evalB (envRet cal rot logID name keep nowUnit))) &&
+     !(Gen.C17.retentionGuards.any (evalB (envRet cal rot logID name keep nowUnit))) &&
+     Gen.C17.removeCond.all (evalB (envRet cal rot logID name keep nowUnit))) =
+    deleted cal rot logID keep nowUnit name := by
+  rw [gen_retention_returns_interp, gen_retention_parse_interp]
+  unfold deleted verdict
+  cases hc : candidate logID name with
+  | none => simp
+  | some d =>
+    obtain ⟨r, hr, hv⟩ := gen_retention_remove_interp cal rot logID name d keep nowUnit hc
+    rw [hr]
+    simp only [List.all_cons, List.all_nil, Bool.and_true, hv, Bool.not_not, Option.isNone_some, Bool.not_false]
+    cases hu : cal.unitOf d with
+    | none => simp
+    | some u => by_cases hgt : nowUnit - u > keep <;> simp [hgt]
 
 end C17Gen
